@@ -43,6 +43,16 @@ pub fn deb822_edit(fs: &[&str]) -> String {
             Deb822::from_str_relaxed(&unhex(h)).0
         } else if let Some(e) = init.strip_prefix("F:") {
             pairs(e).into_iter().map(|p| p.into_iter().collect::<Paragraph>()).collect::<Deb822>()
+        } else if let Some(e) = init.strip_prefix("P:") {
+            // FromIterator of paragraphs obtained by Paragraph::from_str of each text
+            let mut ps = vec![];
+            for h in e.split(';').filter(|x| !x.is_empty()) {
+                match Paragraph::from_str(&unhex(h)) {
+                    Ok(p) => ps.push(p),
+                    Err(_) => return "ERR".to_string(),
+                }
+            }
+            ps.into_iter().collect::<Deb822>()
         } else {
             panic!("bad init")
         };
